@@ -26,12 +26,17 @@ META = {
                   "(and with io.TeeReader / io.LimitReader / io.MultiReader / io.MultiWriter in between). DRIVER MODES: "
                   "io.Copy, CopyBuffer, CopyN, ReadAll into scripted failing/short destinations followed by direct Reads, "
                   "io.Copy / WriteString / Fprintf into the writer, and every optional interface found by type assertion "
-                  "are validated by TLC through what reaches the wrapped object (DriverRead, Supply/ForwardPending). Long "
+                  "are validated by TLC through what reaches the wrapped object (DriverRead, Supply/ForwardPending). EXTREME "
+                  "LIMITS (math.MaxInt64-1 .. math.MaxUint64, symbolic HugeBase in the model, real constants in the harness) "
+                  "must behave like the unlimited pass-through, alone and as one level of a chain. Standard-library readers "
+                  "as the wrapped reader (a *bytes.Buffer that grows after wrapping - Grow in the spec -, *strings.Reader, "
+                  "*bytes.Reader, *bufio.Reader, io.Pipe) are limited like any other. Long "
                   "seeded random histories (n up to 10^6) are validated back against the same actions.",
     "level_note": "Wrapped readers returning k > len(p) or k < 0 violate io.Reader and are out of scope; n is kept below 2^31 "
                   "(TLC integers); the harness's byte-to-position mapping (locate) is trusted.",
 }
 
+HUGE = "{1000000000}"      # IOCommon.tla HugeBase
 ERRS3 = '{"nil", "EOF", "E1"}'
 ERRS4 = '{"nil", "EOF", "E1", "E2"}'
 R_INV = ["RTypeOK", "RemInv", "RequestBounded", "ObtainedBounded", "DeliveredBounded", "PrefixDelivered",
@@ -60,7 +65,11 @@ def run(ctx):
                 "io.Copy/WriteString/Fprintf into the writer; optional interfaces found at run time). "
                 "distinct_nontrivial = distinct replayed paths with at least one call")
     ctx.assumptions += ["the wrapped reader obeys 0 <= k <= len(p) (io.Reader contract); anything else is out of scope",
-                        "limits below 2^31 (TLC integers)",
+                        "limits below 2^31 in the model (TLC integers); the extreme limits math.MaxInt64-1 .. math.MaxUint64 "
+                        "are modelled symbolically (HugeBase: larger than every reachable total) and replayed with the real "
+                        "constants; a *LimitError carrying such a limit cannot be provoked (2^63 bytes)",
+                        "standard-library readers as the wrapped reader (*bytes.Buffer growing between Reads, *strings.Reader, "
+                        "*bytes.Reader, *bufio.Reader, io.Pipe) are observed, not scripted: k = how much they were drained",
                         "composition: chains of 2-3 real readers/writers nested directly and with transparent std wrappers "
                         "(io.TeeReader, io.LimitReader(huge), io.MultiReader(one) on EOF-free paths, io.MultiWriter(one)) "
                         "in between; bufio is not transparent and not used",
@@ -107,6 +116,12 @@ def run_g(ctx, d, q):
                   invariants=["WEmit", "ForwardedPrefix", "ReportsLen"])
         return ctx.tlc(d, "TruncWriterGen", name + ".cfg", label=name, timeout=1500, **kw)
 
+    # EXTREME LIMITS: a symbolic limit >= HugeBase stands for math.MaxInt64-1 .. math.MaxUint64 (the harness
+    # substitutes the real constants): the objects must behave like the unlimited pass-through.
+    # (quick: covered by the chains below - a chain of two extreme levels read at the inner one is the single object)
+    if not q:
+        rgen("rgen_huge", HUGE, "{0, 2, 5}", ERRS3, 3)
+        wgen("wgen_huge", HUGE, "{0, 2, 5}", '{"nil", "E1"}', 3)
     if q:
         rgen("rgen_thin_d5", "{0, 1, 2}", "{0, 1, 3}", '{"nil", "EOF"}', 5)
         rgen("rgen_rich_d3", rset(0, 4), rset(0, 5), ERRS3, 3)
@@ -149,6 +164,8 @@ def run_g(ctx, d, q):
                   invariants=["TEmit", "TTypeOK2", "TEachLevel", "TForwarded", "TReportsLen", "TErrPass"])
         return ctx.tlc(d, "TruncChainGen", name + ".cfg", label=name, timeout=1500)
 
+    cgen("rchain_huge", "{2}", "{1, %s}" % HUGE[1:-1], "{0, 1, 3}", '{"nil", "EOF"}', 3)
+    tgen("wchain_huge", "{2}", "{1, %s}" % HUGE[1:-1], "{0, 1, 3}", 3)
     if q:
         cgen("rchain_d3", "{2, 3}", "{1, 2}", "{0, 1, 3}", '{"nil", "EOF"}', 3)
         tgen("wchain_d3", "{2, 3}", "{1, 2}", "{0, 1, 3}", 3)
@@ -197,6 +214,7 @@ def run_t(ctx, d, q):
     ctx.evaluations += s3["events"]
     ctx.extra["trace_events_validated"] = s3["events"]
     ctx.extra["driver_mode_histories"] = s3["driver_histories"]
+    ctx.extra["std_reader_histories"] = s3["std_reader_histories"]
     ctx.extra["optional_interfaces_found"] = s3["optional_interfaces"]
 
 
